@@ -50,6 +50,7 @@ int g_status_at_release;       /* T->status when the record was released */
 int g_result_read_ok;          /* reaper: *result was stored (checked by the harness through res) */
 void * g_result;               /* the exit value agreed with the finisher */
 int g_queue_pops;
+int g_had_waiter;              /* finisher harness: a joiner was blocked on T */
 
 static void verif_jump(void)  { g_after_switch = 1; if (g_jumps < 2) g_jumps++; }
 void verif_after_jump(void);
@@ -226,8 +227,8 @@ static void b_entry_point_2(void) {
 void verif_after_jump(void) {
   __CPROVER_assert(g_jumps == 1, "finish: exactly one jump away from the finished thread");
   finisher_final_checks();
-  if (g_queue_pops == 0) __CPROVER_assert(0, "CANARY reachable: finish with a blocked joiner (jump to the joiner)");
-  if (g_queue_pops == 1) __CPROVER_assert(0, "CANARY reachable: finish without joiner (jump to the next thread or the scheduler)");
+  if (g_had_waiter)  __CPROVER_assert(0, "CANARY reachable: finish with a blocked joiner (jump to the joiner)");
+  if (!g_had_waiter) __CPROVER_assert(0, "CANARY reachable: finish without joiner (jump to the next thread or the scheduler)");
   VERIF_CANARY();                                  /* the jump is reachable */
 }
 static void b_cleanup(void) {
@@ -236,6 +237,7 @@ static void b_cleanup(void) {
   T->status = MYTH_STATUS_READY;
   T->result = g_result;
   T->join_thread = nondet_bool() ? &WAITER : (myth_thread_t)0;       /* a joiner is blocked on T, or not */
+  g_had_waiter = (T->join_thread != 0);
   WAITER.status = MYTH_STATUS_BLOCKED;
   myth_running_env_t env = cur_env();
   env->this_thread = T; T->env = env;
@@ -276,8 +278,8 @@ static void b_join(void) {
   __CPROVER_assert(g_locks == 1 && g_unlocks == 1 && g_lock_held == 0, "join: lock taken and released once");
   __CPROVER_assert(g_stack_rel == 0, "join: never touches the stack");
   __CPROVER_assert(g_swaps <= 1, "join: blocks at most once");
-  if (g_swaps == 1) __CPROVER_assert(0, "CANARY reachable: join that blocked and was resumed (possibly on another worker)");
-  if (g_swaps == 0) __CPROVER_assert(0, "CANARY reachable: join of a thread found finished under the lock");
+  if (g_status_at_lock <  MYTH_STATUS_FREE_READY) __CPROVER_assert(0, "CANARY reachable: join of a thread found running under the lock (blocks, resumed possibly on another worker)");
+  if (g_status_at_lock >= MYTH_STATUS_FREE_READY) __CPROVER_assert(0, "CANARY reachable: join of a thread found finished under the lock");
   VERIF_CANARY();
 }
 
@@ -305,9 +307,9 @@ static void b_detach(void) {
                    "detach of a running thread: the flag is set between lock and unlock, the thread was unfinished under the lock");
   __CPROVER_assert(g_lock_held == 0 && g_locks == g_unlocks, "detach: lock released on every path");
   __CPROVER_assert(g_stack_rel == 0 && g_swaps == 0, "detach: never touches the stack, never blocks");
-  if (g_handed_over) __CPROVER_assert(0, "CANARY reachable: detach of a running thread");
-  if (g_desc_rel && g_locks == 0) __CPROVER_assert(0, "CANARY reachable: detach of a finished thread, unlocked fast path");
-  if (g_desc_rel && g_locks == 1) __CPROVER_assert(0, "CANARY reachable: detach of a finished thread, locked path");
+  if (g_locks == 1 && g_status_at_lock <  MYTH_STATUS_FREE_READY) __CPROVER_assert(0, "CANARY reachable: detach of a thread found running under the lock");
+  if (g_locks == 1 && g_status_at_lock >= MYTH_STATUS_FREE_READY) __CPROVER_assert(0, "CANARY reachable: detach of a thread found finished under the lock");
+  if (g_locks == 0) __CPROVER_assert(0, "CANARY reachable: detach of a finished thread, unlocked fast path");
   VERIF_CANARY();
 }
 
